@@ -27,7 +27,7 @@ Ctors == {"ptr", "slice", "arr1", "arr2", "map", "s1", "s2", "iface"}
 Scalars == {"bool", "int8", "int16", "int32", "int64", "int", "uint8", "uint16", "uint32", "uint64",
             "uint", "float32", "float64", "string", "time"}
 NamedScalars == {"MyInt", "MyStr", "MyFloat", "MyBool", "Duration", "MyU64", "MyU8", "MyI8", "MyF32"}
-NamedComposites == {"MyList", "MyMap", "Rec", "Hid"}   \* Hid: the exported shape of Rec with unexported fields around it
+NamedComposites == {"MyList", "MyMap", "Rec", "Hid", "MyStrs"}   \* Hid: the exported shape of Rec with unexported fields around it
 Leaves == Scalars \cup NamedScalars \cup NamedComposites
 UnsupportedLeaves == {"complex128", "chan", "func"}
 
@@ -35,7 +35,7 @@ UnsupportedLeaves == {"complex128", "chan", "func"}
 Kind(leaf) == CASE leaf = "MyInt" -> "int" [] leaf = "MyStr" -> "string" [] leaf = "MyFloat" -> "float64"
                 [] leaf = "MyBool" -> "bool" [] leaf = "Duration" -> "int64" [] leaf = "MyU64" -> "uint64"
                 [] leaf = "MyU8" -> "uint8" [] leaf = "MyI8" -> "int8" [] leaf = "MyF32" -> "float32" [] OTHER -> leaf
-Under(leaf) == CASE leaf = "MyList" -> <<"slice", "int">> [] leaf = "MyMap" -> <<"map", "string">>
+Under(leaf) == CASE leaf = "MyList" -> <<"slice", "int">> [] leaf = "MyStrs" -> <<"slice", "string">> [] leaf = "MyMap" -> <<"map", "string">>
                  [] leaf \in {"Rec", "Hid"} -> <<"s2", "int64">> [] OTHER -> <<leaf>>
 Last(s) == s[Len(s)]
 Front(s) == SubSeq(s, 1, Len(s) - 1)
@@ -215,7 +215,7 @@ Types(d) == {p \o <<l>> : p \in Prefixes(d), l \in Leaves}
 \* the algebra is split by leaf so that several TLC processes can enumerate it in parallel
 LeafSeq == <<"bool", "int8", "int16", "int32", "int64", "int", "uint8", "uint16", "uint32", "uint64", "uint",
              "float32", "float64", "string", "time", "MyInt", "MyStr", "MyFloat", "MyBool", "Duration",
-             "MyList", "MyMap", "Rec", "MyU64", "MyU8", "MyI8", "MyF32", "Hid">>
+             "MyList", "MyMap", "Rec", "MyU64", "MyU8", "MyI8", "MyF32", "Hid", "MyStrs">>
 ShardLeaves(k, n) == {LeafSeq[i] : i \in {j \in 1..Len(LeafSeq) : j % n = k}}
 ShardTypes(d, k, n) == {p \o <<l>> : p \in Prefixes(d), l \in ShardLeaves(k, n)}
 UnsupportedTypes == {p \o <<l>> : p \in Prefixes(1), l \in UnsupportedLeaves} \cup {<<"imap", "int">>, <<"imap", "string">>}
